@@ -95,6 +95,7 @@ func (_this *Session) RegisterIteratorForType(t reflect.Type, iterator IteratorF
 // Get an iterator template for the specified type. If a registered template
 // doesn't yet exist, a new default template will be generated and registered.
 func (_this *Session) GetIteratorForType(t reflect.Type) IteratorFunction {
+	verifGate("load", t)
 	storedIterator, ok := _this.iteratorFuncs.Load(t)
 	if ok {
 		return storedIterator.(IteratorFunction)
@@ -104,7 +105,9 @@ func (_this *Session) GetIteratorForType(t reflect.Type) IteratorFunction {
 	var iterator IteratorFunction
 
 	wg.Add(1)
+	verifGate("loadorstore", t)
 	storedIterator, loaded := _this.iteratorFuncs.LoadOrStore(t, IteratorFunction(func(context *Context, value reflect.Value) {
+		verifGate("wait", t)
 		wg.Wait()
 		iterator(context, value)
 	}))
@@ -112,8 +115,11 @@ func (_this *Session) GetIteratorForType(t reflect.Type) IteratorFunction {
 		return storedIterator.(IteratorFunction)
 	}
 
+	verifGate("generate", t)
 	iterator = _this.getDefaultIteratorForType(t)
+	verifGate("done", t)
 	wg.Done()
+	verifGate("store", t)
 	_this.iteratorFuncs.Store(t, iterator)
 	return iterator
 }
